@@ -330,9 +330,11 @@ func writeBodyStream(resp *protocol.Response, w network.Writer, sendBody bool) (
 			}
 		}
 	}
-	err1 := resp.CloseBodyStream()
-	if err == nil {
-		err = err1
+	// The message is on its way whatever releasing the source reports: an error of
+	// Close is not an error of the write (it would keep what was written from being
+	// flushed and cut a complete message short).
+	if err1 := resp.CloseBodyStream(); err1 != nil && err == nil {
+		hlog.SystemLogger().Warnf("closing the response body stream failed after the body was written, error: %s", err1.Error())
 	}
 	return err
 }
